@@ -5,6 +5,8 @@ import (
 	"fmt"
 	"sort"
 	"strings"
+	"sync"
+	"sync/atomic"
 	"testing"
 
 	"github.com/fiorix/go-diameter/v4/diam"
@@ -634,4 +636,65 @@ func keys(m map[uint32]bool) []uint32 {
 		k = append(k, x)
 	}
 	return k
+}
+
+// TestC17Concurrent (race build): lookups are read-only and may be made from any number of
+// goroutines once the dictionaries are loaded (every connection's reader decodes with the same
+// Parser).  G goroutines resolve overlapping sets of keys of one shared Parser at the same
+// moment, every answer is checked against the reference resolver as in TestC17, and the race
+// detector watches what the lookups touch.
+func TestC17Concurrent(t *testing.T) {
+	rec := ev.Open(t, "C17")
+	defer rec.Close()
+	ctxs := contexts(t)
+	appIDs := []uint32{0, 1, 4, 16777238, 16777251, 16777236, 7, 4294967295}
+	rec.Suite("concurrent-lookups", len(ctxs)*rec.N(2, 200), func(c *ev.Case) {
+		ctx := ctxs[c.I%len(ctxs)]
+		defs := ctx.Set.AVPs()
+		cmds := ctx.Set.Cmds()
+		const G = 6
+		c.Class("concurrent-lookups/%s", ctx.Name)
+		start := make(chan struct{})
+		var wg sync.WaitGroup
+		var total atomic.Int64
+		for g := 0; g < G; g++ {
+			wg.Add(1)
+			gc := rec.OneCase("concurrent-lookups", c.I*G+g)
+			go func(g int) {
+				defer wg.Done()
+				<-start
+				n := 0
+				// every goroutine walks the same keys from another starting point
+				for k := 0; k < len(defs) && k < 400; k++ {
+					d := defs[(k*7+g*53+c.I)%len(defs)]
+					app := appIDs[(k+g)%len(appIDs)]
+					for _, vendor := range []uint32{d.Vendor, refdict.AnyVendor} {
+						if ok, _ := lookupOne(gc, ctx.Parser, ctx.Ix, nil, app, d.Code, vendor, d.Name, ctx.Name); !ok {
+							return
+						}
+						n++
+					}
+					if len(cmds) > 0 {
+						cd := cmds[(k+g)%len(cmds)]
+						want, found := ctx.Ix.FindCommand(app, cd.Code)
+						got, err := ctx.Parser.FindCommand(app, cd.Code)
+						if found != (err == nil) || (found && (got.Code != want.Code || got.Short != want.Short)) {
+							gc.Fail(ev.Sig{"op": "command", "how": "concurrent"}, nil, nil, "dict %s FindCommand(%d,%d) under concurrent lookups: library %v err=%v, reference %+v found=%v", ctx.Name, app, cd.Code, got, err, want, found)
+							return
+						}
+						n++
+					}
+					if _, err := ctx.Parser.App(app); (err == nil) != ctx.Set.HasApp(app) {
+						gc.Fail(ev.Sig{"op": "app", "how": "concurrent"}, nil, nil, "dict %s App(%d) under concurrent lookups: err=%v, reference has=%v", ctx.Name, app, err, ctx.Set.HasApp(app))
+						return
+					}
+				}
+				total.Add(int64(n))
+			}(g)
+		}
+		close(start)
+		wg.Wait()
+		c.Event("concurrent_lookups", int(total.Load()))
+		c.Event("lookups", int(total.Load()))
+	})
 }
